@@ -36,57 +36,65 @@ Hypothesis Sinv_mul : forall a b, Sinv (fmul a b) = fmul (Sinv a) (Sinv b).
 
 Notation cust := (custom F Finv S Sinv).
 
+(* equality of field terms up to commutativity / associativity of the pointwise product and scaling:
+   peel equal operators, then compare pointwise with ring (operator applications are atoms) *)
+Ltac field_eq :=
+  first [ reflexivity
+        | match goal with |- ?f ?a = ?f ?b => apply (f_equal f); field_eq end
+        | (let i := fresh "i" in let j := fresh "j" in extensionality i; extensionality j; unfold fmul, fadd, fscal, fone, fzero; ring) ].
+Ltac open_pipe := unfold custom, centered, conv_centered, fraun.
+
 (* ---- structure: traced = documented forward model (aperture applied ONCE) *)
 Lemma t_custom_ok u K A : t_custom F Finv S Sinv u K A = cust u K A.
-Proof. reflexivity. Qed.
+Proof. unfold t_custom; open_pipe. field_eq. Qed.
 Lemma t_custom_noap_ok u K : t_custom_noap F Finv S Sinv u K = cust u K fone.
-Proof. unfold t_custom_noap, custom. rewrite fmul_one_r. reflexivity. Qed.
+Proof. unfold t_custom_noap; open_pipe. field_eq. Qed.
 Lemma t_custom_nokernel_ok u A : t_custom_nokernel F Finv S Sinv u A = cust u fone A.
-Proof. reflexivity. Qed.
+Proof. unfold t_custom_nokernel; open_pipe. field_eq. Qed.
 Lemma t_custom_fpad_ok u K A : t_custom_fpad F Finv S Sinv PAD u K A = Finv (Sinv (PAD (fmul K (fmul (S (F u)) A)))).
-Proof. reflexivity. Qed.
+Proof. unfold t_custom_fpad; open_pipe. field_eq. Qed.
 Lemma t_beam_custom_ok u K A : t_beam_custom F Finv S Sinv u K A = cust u K A.
-Proof. reflexivity. Qed.
+Proof. unfold t_beam_custom; open_pipe. field_eq. Qed.
 Lemma t_angular_spectrum_ok u K A : t_angular_spectrum F Finv S Sinv u K A = cust u K A.
-Proof. reflexivity. Qed.
+Proof. unfold t_angular_spectrum; open_pipe. field_eq. Qed.
 Lemma t_beam_nopad_angular_spectrum_ok u K A : t_beam_nopad_angular_spectrum F Finv S Sinv u K A = cust u K A.
-Proof. reflexivity. Qed.
+Proof. unfold t_beam_nopad_angular_spectrum; open_pipe. field_eq. Qed.
 Lemma t_beam_padcrop_angular_spectrum_ok u K A : t_beam_padcrop_angular_spectrum F Finv S Sinv PAD CROP u K A = CROP (cust (PAD u) K A).
-Proof. reflexivity. Qed.
+Proof. unfold t_beam_padcrop_angular_spectrum; open_pipe. field_eq. Qed.
 Lemma t_band_limited_angular_spectrum_ok u K A : t_band_limited_angular_spectrum F Finv S Sinv u K A = cust u K A.
-Proof. reflexivity. Qed.
+Proof. unfold t_band_limited_angular_spectrum; open_pipe. field_eq. Qed.
 Lemma t_beam_nopad_band_limited_angular_spectrum_ok u K A : t_beam_nopad_band_limited_angular_spectrum F Finv S Sinv u K A = cust u K A.
-Proof. reflexivity. Qed.
+Proof. unfold t_beam_nopad_band_limited_angular_spectrum; open_pipe. field_eq. Qed.
 Lemma t_beam_padcrop_band_limited_angular_spectrum_ok u K A : t_beam_padcrop_band_limited_angular_spectrum F Finv S Sinv PAD CROP u K A = CROP (cust (PAD u) K A).
-Proof. reflexivity. Qed.
+Proof. unfold t_beam_padcrop_band_limited_angular_spectrum; open_pipe. field_eq. Qed.
 Lemma t_transfer_function_fresnel_ok u K A : t_transfer_function_fresnel F Finv S Sinv u K A = cust u K A.
-Proof. reflexivity. Qed.
+Proof. unfold t_transfer_function_fresnel; open_pipe. field_eq. Qed.
 Lemma t_beam_nopad_transfer_function_fresnel_ok u K A : t_beam_nopad_transfer_function_fresnel F Finv S Sinv u K A = cust u K A.
-Proof. reflexivity. Qed.
+Proof. unfold t_beam_nopad_transfer_function_fresnel; open_pipe. field_eq. Qed.
 Lemma t_beam_padcrop_transfer_function_fresnel_ok u K A : t_beam_padcrop_transfer_function_fresnel F Finv S Sinv PAD CROP u K A = CROP (cust (PAD u) K A).
-Proof. reflexivity. Qed.
+Proof. unfold t_beam_padcrop_transfer_function_fresnel; open_pipe. field_eq. Qed.
 Lemma t_impulse_response_fresnel_ok u K A : t_impulse_response_fresnel F Finv S Sinv u K A = cust u K A.
-Proof. reflexivity. Qed.
+Proof. unfold t_impulse_response_fresnel; open_pipe. field_eq. Qed.
 Lemma t_beam_nopad_impulse_response_fresnel_ok u K A : t_beam_nopad_impulse_response_fresnel F Finv S Sinv u K A = cust u K A.
-Proof. reflexivity. Qed.
+Proof. unfold t_beam_nopad_impulse_response_fresnel; open_pipe. field_eq. Qed.
 Lemma t_beam_padcrop_impulse_response_fresnel_ok u K A : t_beam_padcrop_impulse_response_fresnel F Finv S Sinv PAD CROP u K A = CROP (cust (PAD u) K A).
-Proof. reflexivity. Qed.
+Proof. unfold t_beam_padcrop_impulse_response_fresnel; open_pipe. field_eq. Qed.
 Lemma t_seperable_impulse_response_fresnel_ok u K A : t_seperable_impulse_response_fresnel F Finv S Sinv u K A = cust u K A.
-Proof. reflexivity. Qed.
+Proof. unfold t_seperable_impulse_response_fresnel; open_pipe. field_eq. Qed.
 Lemma t_beam_nopad_seperable_impulse_response_fresnel_ok u K A : t_beam_nopad_seperable_impulse_response_fresnel F Finv S Sinv u K A = cust u K A.
-Proof. reflexivity. Qed.
+Proof. unfold t_beam_nopad_seperable_impulse_response_fresnel; open_pipe. field_eq. Qed.
 Lemma t_beam_padcrop_seperable_impulse_response_fresnel_ok u K A : t_beam_padcrop_seperable_impulse_response_fresnel F Finv S Sinv PAD CROP u K A = CROP (cust (PAD u) K A).
-Proof. reflexivity. Qed.
+Proof. unfold t_beam_padcrop_seperable_impulse_response_fresnel; open_pipe. field_eq. Qed.
 Lemma t_incoherent_angular_spectrum_ok u K A : t_incoherent_angular_spectrum F Finv S Sinv u K A = cust u K A.
-Proof. reflexivity. Qed.
+Proof. unfold t_incoherent_angular_spectrum; open_pipe. field_eq. Qed.
 Lemma t_beam_nopad_incoherent_angular_spectrum_ok u K A : t_beam_nopad_incoherent_angular_spectrum F Finv S Sinv u K A = cust u K A.
-Proof. reflexivity. Qed.
+Proof. unfold t_beam_nopad_incoherent_angular_spectrum; open_pipe. field_eq. Qed.
 Lemma t_beam_padcrop_incoherent_angular_spectrum_ok u K A : t_beam_padcrop_incoherent_angular_spectrum F Finv S Sinv PAD CROP u K A = CROP (cust (PAD u) K A).
-Proof. reflexivity. Qed.
+Proof. unfold t_beam_padcrop_incoherent_angular_spectrum; open_pipe. field_eq. Qed.
 Lemma n_angular_spectrum_ok u H : n_angular_spectrum F Finv S Sinv u H = cust u H fone.
-Proof. unfold n_angular_spectrum, custom. rewrite fmul_one_r. reflexivity. Qed.
+Proof. unfold n_angular_spectrum; open_pipe. field_eq. Qed.
 Lemma n_band_limited_angular_spectrum_ok u H : n_band_limited_angular_spectrum F Finv S Sinv u H = cust u H fone.
-Proof. unfold n_band_limited_angular_spectrum, custom. rewrite fmul_one_r. reflexivity. Qed.
+Proof. unfold n_band_limited_angular_spectrum; open_pipe. field_eq. Qed.
 Lemma n_transfer_function_fresnel_ok u H dx : dx <> 0 -> n_transfer_function_fresnel F Finv S Sinv u H dx = centered F Finv S Sinv u H.
 Proof.
   intros Hd. unfold n_transfer_function_fresnel.
@@ -105,7 +113,7 @@ Theorem traced_energy_conserved u K : (forall i j, (i < n)%nat -> (j < m)%nat ->
   energy n m (t_transfer_function_fresnel F Finv S Sinv u K fone) = energy n m u /\
   energy n m (n_angular_spectrum F Finv S Sinv u K) = energy n m u.
 Proof.
-  intros HK. rewrite n_angular_spectrum_ok.
+  intros HK. rewrite (t_angular_spectrum_ok u K fone), (t_transfer_function_fresnel_ok u K fone), (n_angular_spectrum_ok u K).
   assert (E : energy n m (cust u K fone) = energy n m u) by (eapply custom_energy_unit; eauto).
   repeat split; exact E.
 Qed.
@@ -117,7 +125,7 @@ Theorem traced_energy_never_created u K A : (forall i j, (i < n)%nat -> (j < m)%
   energy n m (t_angular_spectrum F Finv S Sinv u K A) <= energy n m u /\
   energy n m (t_custom F Finv S Sinv u K A) <= energy n m u.
 Proof.
-  intros HK.
+  intros HK. rewrite (t_band_limited_angular_spectrum_ok u K A), (t_angular_spectrum_ok u K A), (t_custom_ok u K A).
   assert (E : energy n m (cust u K A) <= energy n m u) by (eapply custom_energy_le; eauto).
   repeat split; exact E.
 Qed.
@@ -132,7 +140,7 @@ Theorem traced_second_pass_removes_nothing u K M :
   energy n m (t_custom F Finv S Sinv (t_custom F Finv S Sinv u K M) K M) = energy n m (t_custom F Finv S Sinv u K M) /\
   t_custom F Finv S Sinv (t_custom F Finv S Sinv u fone M) fone M = t_custom F Finv S Sinv u fone M.
 Proof.
-  intros HM HK. change (t_custom F Finv S Sinv) with cust. split.
+  intros HM HK. rewrite (t_custom_ok u K M), (t_custom_ok (cust u K M) K M), (t_custom_ok u fone M), (t_custom_ok (cust u fone M) fone M). split.
   - eapply custom_second_pass_energy; eauto.
   - eapply custom_mask_idem; eauto.
 Qed.
@@ -140,9 +148,9 @@ Qed.
 (* ---- C02 on the traced pipelines *)
 Theorem traced_compose u K1 A1 K2 A2 :
   t_custom F Finv S Sinv (t_custom F Finv S Sinv u K1 A1) K2 A2 = t_custom F Finv S Sinv u (fmul K1 K2) (fmul A1 A2).
-Proof. change (t_custom F Finv S Sinv) with cust. eapply custom_compose; eauto. Qed.
+Proof. rewrite (t_custom_ok u K1 A1), (t_custom_ok (cust u K1 A1) K2 A2), (t_custom_ok u (fmul K1 K2) (fmul A1 A2)). eapply custom_compose; eauto. Qed.
 Theorem traced_identity u : t_custom F Finv S Sinv u fone fone = clip n m u.
-Proof. change (t_custom F Finv S Sinv) with cust. eapply custom_id; eauto. Qed.
+Proof. rewrite (t_custom_ok u fone fone). eapply custom_id; eauto. Qed.
 Theorem traced_numpy_fresnel_compose u K1 K2 d1 d2 : d1 <> 0 -> d2 <> 0 ->
   n_transfer_function_fresnel F Finv S Sinv (n_transfer_function_fresnel F Finv S Sinv u K1 d1) K2 d2 = centered F Finv S Sinv u (fmul K1 K2).
 Proof. intros H1 H2. rewrite !n_transfer_function_fresnel_ok by assumption. eapply centered_compose; eauto. Qed.
@@ -152,9 +160,9 @@ Proof. intros H1. rewrite n_transfer_function_fresnel_ok by assumption. eapply c
 (* ---- C03 on the traced pipelines *)
 Theorem traced_linear a b u v K A :
   t_custom F Finv S Sinv (fadd (fscal a u) (fscal b v)) K A = fadd (fscal a (t_custom F Finv S Sinv u K A)) (fscal b (t_custom F Finv S Sinv v K A)).
-Proof. change (t_custom F Finv S Sinv) with cust. eapply custom_linear; eauto. Qed.
+Proof. rewrite (t_custom_ok (fadd (fscal a u) (fscal b v)) K A), (t_custom_ok u K A), (t_custom_ok v K A). eapply custom_linear; eauto. Qed.
 Theorem traced_zero K A : t_custom F Finv S Sinv fzero K A = fzero.
-Proof. change (t_custom F Finv S Sinv) with cust. eapply custom_zero; eauto. Qed.
+Proof. rewrite (t_custom_ok fzero K A). eapply custom_zero; eauto. Qed.
 Theorem traced_numpy_linear a b u v K h dx : dx <> 0 ->
   n_transfer_function_fresnel F Finv S Sinv (fadd (fscal a u) (fscal b v)) K dx
     = fadd (fscal a (n_transfer_function_fresnel F Finv S Sinv u K dx)) (fscal b (n_transfer_function_fresnel F Finv S Sinv v K dx)) /\
@@ -179,7 +187,7 @@ Variable Ph : fld.
 Hypothesis modulation : forall u, F (T u) = fmul Ph (F u).
 Hypothesis modulation_inv : forall U, Finv (fmul Ph U) = T (Finv U).
 Theorem traced_shift u K A : t_custom F Finv S Sinv (T u) K A = T (t_custom F Finv S Sinv u K A).
-Proof. change (t_custom F Finv S Sinv) with cust. eapply custom_shift; eauto. Qed.
+Proof. rewrite (t_custom_ok (T u) K A), (t_custom_ok u K A). eapply custom_shift; eauto. Qed.
 End Shift.
 End P.
 Print Assumptions traced_energy_conserved.
